@@ -6,7 +6,9 @@ the solver (constructor arguments, the `a`, `b` captured by the objective closur
 (`params`, `state.iter_num/stepsize/t/error`).  The Lean model (`Brax/Model/C06Solver.lean`, driver `Driver/C06Solver.lean`) gets
 the same `a`, `b`, `maxiter`, `maxls`, the library's own `tol` and `finfo(dtype).eps`:
 
-* `f.pg`      : `pgRun`  -> iteration count must be EQUAL, `params`, `stepsize`, `t`, `error` within 1e-9 (relative to the scale of `params`)
+* `f.pg`      : `pgRun`  -> iteration count must be EQUAL, `params`, `stepsize`, `t`, `error` within 1e-9 (relative to the scale of `params`);
+                when the real run overflows to inf/nan (divergence, see notes/C06-deepen-solver.md) the model must overflow too (the
+                iteration at which it happens is not compared)
 * `f.pgforce` : `force (pgSolve ...)` -> `qf_constraint` of the real `constraint.force` within 1e-9
 
 and on the real side every returned multiplier must be `>= 0` (the statement of `pgSolve_nonneg`) and exactly `0` when
@@ -155,7 +157,7 @@ def solver_cases(ctx):
   n_problems = ctx.budget(16, 72)
   lines, checks, dis = [], [], []
   st = dict(problems=0, by_kind={}, by_maxiter={}, by_size={}, iters_hist={}, stopped_by_tol=0, hit_maxiter=0, x_zero=0, x_positive_entries=0,
-            x_entries=0, real_min_x=None, real_nonfinite=0, real_nonfinite_by_maxls={}, real_nonfinite_example=None, zero_predicted=0, maxls_values={}, linesearch_backtracked=0)
+            x_entries=0, real_min_x=None, real_nonfinite=0, real_nonfinite_by_maxls={}, real_nonfinite_example=None, probe_cases=0, probe_response_max=0.0, unstable_cases=0, unstable_by_kind={}, zero_predicted=0, maxls_values={}, linesearch_backtracked=0)
   eps = float(np.finfo(np.float64).eps)
   for i in range(n_problems):
     kind, jac, diag, aref, minv, qfs = gen_problem(rng, i)
@@ -177,6 +179,24 @@ def solver_cases(ctx):
       s = rec['state']
       real_state = (int(s.iter_num), float(s.stepsize), float(s.t), float(s.error))
       k = a_m.shape[0]
+      # ---- measured conditioning of the REAL computation (long runs only): the same call with `mass_mx_inv`, `con_aref` perturbed by
+      # ~50 ulp (relative 1e-14; zero entries stay zero).  A run whose accepted steps are too long (line search cut off by `maxls`)
+      # is not contractive and amplifies round-off; the comparison tolerance is max(1e-9, 100 x the response to this perturbation),
+      # and the iteration count is compared only if the perturbed real run has the same count.
+      resp, count_stable = 0.0, True
+      if maxiter == 100 and kind != 'identity_exact' and np.all(np.isfinite(x)):
+        sg = np.random.default_rng([ctx.seed, 607, i])
+        _, rec2 = real_force(jac, diag, aref * (1 + 1e-14 * sg.choice([-1.0, 1.0], size=aref.shape)),
+                             minv * (1 + 1e-14 * sg.choice([-1.0, 1.0], size=minv.shape)), qfs, maxiter, maxls)
+        x2 = A(rec2['params'])
+        count_stable = int(rec2['state'].iter_num) == real_state[0]
+        resp = float(np.max(np.abs(x2 - x))) / fscale(x) if np.all(np.isfinite(x2)) else np.inf
+        st['probe_cases'] += 1
+        st['probe_response_max'] = max(st['probe_response_max'], resp if np.isfinite(resp) else 1.0)
+        if resp > 1e-11 or not count_stable:
+          st['unstable_cases'] += 1
+          st['unstable_by_kind'][f'{kind}/maxls={maxls}'] = st['unstable_by_kind'].get(f'{kind}/maxls={maxls}', 0) + 1
+      case_tol = max(TOL, 100 * resp) if np.isfinite(resp) else np.inf
       # ---- statements of the theorems, on the real solver
       if x.dtype != np.float64 or str(jp.asarray(rec['params']).dtype) != 'float64':
         raise RuntimeError('x64 is not enabled')
@@ -223,7 +243,7 @@ def solver_cases(ctx):
       tail = [str(maxiter), str(maxls), wire.tok(tol), wire.tok(eps)]
       lines.append(' '.join(['f.pg', str(k)] + wire.toks(a_m) + wire.toks(b_v) + tail))
 
-      def chk(o, x=x, real_state=real_state, info=info, a_m=a_m, b_v=b_v):
+      def chk(o, x=x, real_state=real_state, info=info, a_m=a_m, b_v=b_v, case_tol=case_tol, count_stable=count_stable):
         head, _, xs = o.partition('|')
         h = head.split()
         lean_x = np.array([wire.parse(t) for t in xs.split()], dtype=np.float64)
@@ -231,15 +251,27 @@ def solver_cases(ctx):
         lean_state = (int(h[0]), wire.parse(h[1]), wire.parse(h[2]), lean_err)
         base = dict(lean_state=list(lean_state), real_state=list(real_state), lean_x=lean_x.tolist(), real_x=x.tolist(),
                     a=a_m.tolist(), b=b_v.tolist(), **info)
-        if lean_state[0] != real_state[0]:
+        if not np.all(np.isfinite(x)) or not np.all(np.isfinite(lean_x)):
+          # overflow: the iterates blew up geometrically before reaching inf, which amplifies the last-bit differences between XLA's and
+          # Lean's summation order, so the iteration at which inf/nan appears (and which entries relu still clamps) can differ by one;
+          # required: BOTH sides overflow
+          if np.all(np.isfinite(x)) != np.all(np.isfinite(lean_x)):
+            return dict(what='solver: only one of the Lean model / jaxopt.ProjectedGradient overflowed to a non-finite result', **base)
+          return None
+        if not np.isfinite(case_tol):
+          return None            # the real computation itself answers a 50-ulp perturbation of its input with inf/nan
+        if count_stable and lean_state[0] != real_state[0]:
           return dict(what=f'solver: the Lean model made {lean_state[0]} iterations, jaxopt {real_state[0]}', **base)
         if lean_x.shape != x.shape:
           return dict(what='solver: params of the Lean model have another length', **base)
         scale = fscale(x)
-        if not same(lean_x, x, TOL * scale):
+        if not count_stable:
+          return None if same(lean_x, x, case_tol * scale) else dict(what='solver: params of the Lean model differ from jaxopt.ProjectedGradient '
+                                                                     '(unstable run: measured tolerance)', case_tol=case_tol, **base)
+        if not same(lean_x, x, case_tol * scale):
           return dict(what='solver: params of the Lean model differ from jaxopt.ProjectedGradient', **base)
         for nm, lv, rv in zip(('stepsize', 't', 'error'), lean_state[1:], real_state[1:]):
-          if not same(lv, rv, TOL * (scale if nm == 'error' else 1.0) * fscale(rv)):
+          if not same(lv, rv, case_tol * (scale if nm == 'error' else 1.0) * fscale(rv)):
             return dict(what=f'solver: state.{nm} of the Lean model differs from jaxopt.ProjectedGradient', **base)
       checks.append(chk)
       # ---- Lean: constraint.force with solver := pgSolve
@@ -247,9 +279,16 @@ def solver_cases(ctx):
       lines.append(' '.join(['f.pgforce', str(nv), str(jac.shape[0])] + wire.toks(jac) + wire.toks(diag) + wire.toks(aref) + wire.toks(minv)
                             + wire.toks(qfs) + tail))
 
-      def chk2(o, qf=qf, info=info):
+      def chk2(o, qf=qf, info=info, case_tol=case_tol):
         lean_qf = np.array([wire.parse(t) for t in o.split()], dtype=np.float64)
-        if not same(lean_qf, qf, TOL * fscale(qf) * 10):
+        if not np.all(np.isfinite(qf)) or not np.all(np.isfinite(lean_qf)):
+          if np.all(np.isfinite(qf)) != np.all(np.isfinite(lean_qf)):
+            return dict(what='force with solver := pgSolve: only one side overflowed to a non-finite qf_constraint', lean=[str(v) for v in lean_qf],
+                        real=[str(v) for v in qf], **info)
+          return None
+        if not np.isfinite(case_tol):
+          return None
+        if not same(lean_qf, qf, case_tol * fscale(qf) * 10):
           return dict(what='force with solver := pgSolve: qf_constraint of the Lean model differs from constraint.force', lean=lean_qf.tolist(),
                       real=qf.tolist(), **info)
       checks.append(chk2)
